@@ -227,10 +227,11 @@ func runCmdThen(execute func() error, then func()) (err error, panicked bool) {
 func (s *sess) srcBaseFor(base string, remote bool) (string, string) {
 	if remote && s.deep {
 		// deep=1: a server whose served directory is the base itself (names may then leave it through "..")
-		return s.serverURLFor(filepath.Join(s.dir, base)), ""
+		return s.serverURLFor(filepath.Join(s.dir, base)) + s.urlTail, ""
 	}
 	if remote {
-		return s.serverURL(), filepath.Join(filepath.Base(s.dir), base)
+		// urlspell=1|2: the same server written with a trailing slash / with a "." element
+		return s.serverURL() + s.urlTail, filepath.Join(filepath.Base(s.dir), base)
 	}
 	return filepath.Join(s.dir, base), ""
 }
